@@ -57,6 +57,7 @@ type Env7 struct {
 	Carrier string   `json:"carrier"` // map | struct | ptrstruct
 	Raw     bool     `json:"raw,omitempty"` // hand the Callable a *val.Env built by conv.ValEnvOf
 	NilEnv  bool     `json:"nil_env,omitempty"` // the environment itself is a typed nil pointer / nil map
+	Funs    []*FunBind `json:"funs,omitempty"`  // names bound to FUNCTION values (raw environments only: put by hand after conversion)
 }
 
 func cloneVT(v interface{}, out interface{}) {
@@ -318,6 +319,46 @@ func badValue(kind string) interface{} {
 		return []interface{}{1, "x"}
 	}
 	return nil
+}
+
+// FunBind: a name bound to a function value of the given signature (primitive kinds).
+type FunBind struct {
+	Name string   `json:"name"`
+	P    []string `json:"p"`
+	R    string   `json:"r"`
+}
+
+func (f *FunBind) sig() string { return "fun(" + strings.Join(f.P, ",") + ")" + f.R }
+
+func primType(k string) *types.Type {
+	switch k {
+	case "str":
+		return types.Str
+	case "bool":
+		return types.Bool
+	}
+	return types.Num
+}
+
+func (f *FunBind) ty() *types.Type {
+	ps := make([]*types.Type, len(f.P))
+	for i, k := range f.P {
+		ps[i] = primType(k)
+	}
+	return types.Fun(f.Name, ps, primType(f.R))
+}
+
+func (f *FunBind) value() *val.Val {
+	r := f.R
+	return val.Fun(f.ty(), func(args ...*val.Val) *val.Val {
+		switch r {
+		case "str":
+			return val.Str("f")
+		case "bool":
+			return val.True
+		}
+		return val.Num(7)
+	})
 }
 
 func (e *Env7) isMap() bool { return e.Carrier == "map" || e.Carrier == "ptrmap" }
@@ -661,6 +702,15 @@ func genProg7(r *rng, e *Env7) string {
 	parts := make([]string, n)
 	for i := range parts {
 		parts[i] = fmt.Sprintf("r%d: %s", i, xs[r.intn(len(xs))])
+	}
+	for _, f := range e.Funs {
+		if r.chance(0.6) {
+			if f.Name == "fn" && r.chance(0.5) {
+				parts = append(parts, "rf"+f.Name+": [fn][0](1) + 0") // dynamic call of the function value
+			} else {
+				parts = append(parts, "rf"+f.Name+": len(["+f.Name+"])")
+			}
+		}
 	}
 	if r.chance(0.3) {
 		// sub-expressions that do not depend on the environment at all: a rejected call
@@ -1069,6 +1119,22 @@ func conforms(a, b *Env7) (accept bool, why string) {
 	for _, x := range b.Binds {
 		bm[eff(b, x.Name)] = x
 	}
+	for _, fa := range a.Funs {
+		var fb *FunBind
+		if b.Raw {
+			for _, y := range b.Funs {
+				if y.Name == fa.Name {
+					fb = y
+				}
+			}
+		}
+		if fb == nil {
+			return false, "name " + fa.Name + " (a function) missing"
+		}
+		if fa.sig() != fb.sig() {
+			return false, fmt.Sprintf("name %s: %s vs %s", fa.Name, fa.sig(), fb.sig())
+		}
+	}
 	for _, x := range a.Binds {
 		y, ok := bm[eff(a, x.Name)]
 		if !ok {
@@ -1113,6 +1179,14 @@ func genHist7(r *rng) *Hist7 {
 	g := &gen7{r}
 	h := &Hist7{Spec: EngineSpec{pickBackend(r), true}}
 	h.A = g.env()
+	withFuns := r.chance(0.08)
+	if withFuns {
+		// names bound to function values: only hand-built raw environments can hold them
+		h.A.Funs = []*FunBind{{Name: "fn", P: []string{"num"}, R: "num"}}
+		if r.chance(0.5) {
+			h.A.Funs = append(h.A.Funs, &FunBind{Name: "gn", P: []string{"str", "num"}, R: r.pick([]string{"str", "bool"})})
+		}
+	}
 	h.Src = genProg7(r, h.A)
 	n := 2 + r.intn(10)
 	for i := 0; i < n; i++ {
@@ -1127,8 +1201,31 @@ func genHist7(r *rng) *Hist7 {
 			st.Muts = append(st.Muts, m)
 			cur = g.mutate(cur, m)
 		}
+		if withFuns {
+			var ne Env7
+			cloneVT(cur, &ne)
+			ne.Raw = true
+			if r.chance(0.6) {
+				st.Muts = append(st.Muts, "fun-sig")
+				f := ne.Funs[r.intn(len(ne.Funs))]
+				switch r.intn(4) {
+				case 0:
+					f.R = map[string]string{"num": "str", "str": "num", "bool": "num"}[f.R]
+				case 1:
+					f.P[0] = map[string]string{"num": "str", "str": "num", "bool": "num"}[f.P[0]]
+				case 2:
+					f.P = append(f.P, "num")
+				default:
+					f.P = f.P[:len(f.P)-1]
+				}
+			}
+			cur = &ne
+		}
 		st.Env = cur
 		h.Steps = append(h.Steps, st)
+		if withFuns {
+			continue // the follow-ups below rebuild environments without the function bindings
+		}
 		// at most ONE follow-up per step (they refer to "the previous step's object")
 		// a raw environment holding the value of an empty literal for a list / map binding
 		if r.chance(0.12) {
@@ -1172,7 +1269,7 @@ func genHist7(r *rng) *Hist7 {
 		}
 	}
 	h.Reuse = r.chance(0.5)
-	h.RawA = r.chance(0.3)
+	h.RawA = r.chance(0.3) || withFuns
 	h.Share = h.RawA && r.chance(0.5)
 	if h.RawA && r.chance(0.2) {
 		// a layered compile-time environment: names bound in an outer level are known at
@@ -1216,6 +1313,9 @@ func hostOf(e *Env7) (v interface{}, err error) {
 	if e.Raw {
 		re, cerr := conv.ValEnvOf(v)
 		if cerr == nil {
+			for _, f := range e.Funs {
+				re.Put(f.Name, f.value())
+			}
 			v = re
 		}
 	}
@@ -1265,6 +1365,9 @@ func runHist7(h *Hist7, x *evalCtx) hist7Result {
 				if te, err := conv.TypeEnvOf(hostA); err == nil {
 					if h.Share {
 						te = internTypes(te)
+					}
+					for _, f := range h.A.Funs {
+						te.Put(f.Name, f.ty())
 					}
 					compileEnv = te
 					if h.Layer > 0 {
@@ -1401,7 +1504,7 @@ func runHist7(h *Hist7, x *evalCtx) hist7Result {
 }
 
 // dominant names the mutation a violation is attributed to in its signature.
-var mutPriority = []string{"rawbot", "rawput", "again", "bad", "nil-env", "hetero", "near-miss", "time-named", "empty-retype", "retype-maybe", "drop", "retype-top", "retype-deep", "field-add", "field-remove", "field-rename", "nil-flip",
+var mutPriority = []string{"fun-sig", "rawbot", "rawput", "again", "bad", "nil-env", "hetero", "near-miss", "time-named", "empty-retype", "retype-maybe", "drop", "retype-top", "retype-deep", "field-add", "field-remove", "field-rename", "nil-flip",
 	"reorder", "reorder-top", "raw", "array", "empty", "embed", "tagstyle", "carrier", "ptrflip", "numkind", "maybe-flip", "extra", "contents", "same"}
 
 func dominant(muts []string) string {
